@@ -242,12 +242,13 @@ def edecPrologue (op : Op) (_a b : Int) : Prologue String :=
   match op with
   | .div | .rem => if b == 0 then { throws := some .edecimal_integer_divide_by_zero, qStderr := true } else {}
   | _ => {}
-/-- erational `operator/=` and `normalize()` (called by every operator): #if `if (zero) throw` #else an
-    UNCONDITIONAL `std::cerr << "erational_divide_by_zero\n"` (D15). -/
+/-- erational `operator/=` and `normalize()` (called by every operator; the denominator can only be zero after a division
+    by zero): #if `if (zero) throw erational_divide_by_zero` #else `if (zero) std::cerr << "erational_divide_by_zero\n"`
+    (code after fix 08c03f8, which repaired D15: the message used to be unconditional). -/
 def eratPrologue (op : Op) (_a b : Int) : Prologue String :=
   match op with
-  | .div => if b == 0 then { throws := some .erational_divide_by_zero, qStderr := true } else { qStderr := true }
-  | _ => { qStderr := true }
+  | .div => if b == 0 then { throws := some .erational_divide_by_zero, qStderr := true } else {}
+  | _ => {}
 end Elastic
 
 end UVerif.Exc
